@@ -3,7 +3,7 @@
    model/Graph.v); design.d/C05.md says what is partial and why. *)
 From Coq Require Import List NArith Bool.
 From SV Require Import lib.Bytes model.Graph model.GraphInv gen.GenCrash model.Crash proofs.CrashProofs
-  proofs.CrashReach.
+  proofs.CrashReach proofs.CrashStarted.
 Import ListNotations.
 Open Scope N_scope.
 
@@ -120,13 +120,40 @@ Theorem C05_started_facts_kept_by_state_only_transactions :
     has_hash l s' = false /\ built_products l s' = [].
 Proof. exact started_kept_by_state_only. Qed.
 
-(* The invariant over ALL transactions (declarations and completions of other steps included),
-   stated, not proved; checked on every crashed database by the oracle. *)
-Definition C05_started_invariant_full : Prop :=
-  forall (cap : N) (ops : list op) (started : list str),
-    started = fold_left (fun st o => started_after o st) ops [] ->
-    (forall k, completes_own_outputs (nth k ops OpDeleteDetached) (run_ops (firstn k ops) (init_st cap)) = true) ->
-    started_ok_b started (run_ops ops (init_st cap)) = true.
+(* The invariant over ALL fourteen transaction kinds, declarations and completions of other
+   steps included.  [J started s]: every step of [started] (reset_for_rerun committed, completion
+   not yet) is RUNNING, has no stored hash and none of its products is BUILT.  [proto] lists the
+   protocol facts used (dispatch only of PENDING steps, reset_for_rerun only for the RUNNING step
+   without hash just dispatched, skip/validate jobs end CHECKING steps, a standalone hash result
+   never has cause SUCCEEDED, a completion names no product of ANOTHER running step and node keys
+   are unique, a running step is not redefined, delete_detached / reset_interrupted_steps run
+   when no command runs); rejected or failed transactions are rolled back. *)
+Theorem C05_started_step :
+  forall started s o s',
+    J started s -> proto started s o -> step_op o s = Ok s' -> J (started_after o started) s'.
+Proof. exact started_step. Qed.
+
+Theorem C05_started_invariant :
+  forall cap ops,
+    proto_run ops (init_st cap) [] ->
+    J (snd (run_started ops (init_st cap) [])) (run_ops ops (init_st cap)).
+Proof. exact started_invariant_init. Qed.
+
+(* a kill at any point of such a history, then the restart: every step whose command was running
+   has no stored hash, no BUILT product, and is PENDING (FAILED if detached) *)
+Theorem C05_started_then_crash :
+  forall cap ops x s',
+    proto_run ops (init_st cap) [] -> In x (snd (run_started ops (init_st cap) [])) ->
+    nodup_by str_eqb (map sl (steps (run_ops ops (init_st cap)))) = true ->
+    reset_interrupted (run_ops ops (init_st cap)) = Ok s' ->
+    has_hash x s' = false /\ built_products x s' = [] /\
+    (sstate_of x s' = Some SPending \/ sstate_of x s' = Some SFailed).
+Proof. exact started_then_crash. Qed.
+
+Example C05_started_example :
+  proto_run started_example (init_st 100) [] /\
+  snd (run_started started_example (init_st 100) []) = [s_mka].
+Proof. exact started_example_ok. Qed.
 
 (* ---- 3. stray UNCONFIRMED files ---------------------------------------------------------------*)
 Theorem C05_stray_unconfirmed_resolved :
